@@ -2537,7 +2537,7 @@ class SeriesHE(Series):
 
     def __hash__(self) -> int:
         if not hasattr(self, '_hash'):
-            self._hash = hash(tuple(self.index.values))
+            self._hash = hash(tuple(self.index)) # iteration yields hashable labels (tuples for hierarchies)
         return self._hash
 
     def to_series(self) -> Series:
